@@ -43,6 +43,15 @@ def apply_edit(tmp, v):
                     src = open(p).read()
                     open(p, "w").write(ast.unparse(ast.parse(src)) + "\n")
         return None
+    if v.get("transform") == "rename_locals":
+        for dp, _, fs in os.walk(os.path.join(tmp, "inferno")):
+            for f in fs:
+                if f.endswith(".py"):
+                    p = os.path.join(dp, f)
+                    tree = ast.parse(open(p).read())
+                    rename_locals(tree, v.get("suffix", "_r"))
+                    open(p, "w").write(ast.unparse(tree) + "\n")
+        return None
     for ed in v["edits"]:
         p = os.path.join(tmp, "inferno", ed["file"])
         s = open(p).read()
@@ -57,6 +66,44 @@ def apply_edit(tmp, v):
             return f"edit breaks syntax: {e}"
         open(p, "w").write(s)
     return None
+
+
+def rename_locals(tree, suffix):
+    """Rename every purely local variable (assigned in the function, not a parameter / global / nonlocal / loop-free class
+    attribute) of every function: a behaviour-preserving edit."""
+    for fn in [n for n in ast.walk(tree) if isinstance(n, (ast.FunctionDef, ast.AsyncFunctionDef))]:
+        a = fn.args
+        params = {x.arg for x in a.posonlyargs + a.args + a.kwonlyargs} | ({a.vararg.arg} if a.vararg else set()) | ({a.kwarg.arg} if a.kwarg else set())
+        declared = {nm for n in ast.walk(fn) if isinstance(n, (ast.Global, ast.Nonlocal)) for nm in n.names}
+        nested_params = set()
+        for n in ast.walk(fn):
+            if n is not fn and isinstance(n, (ast.FunctionDef, ast.Lambda)):
+                aa = n.args
+                nested_params |= {x.arg for x in aa.posonlyargs + aa.args + aa.kwonlyargs} | ({aa.vararg.arg} if aa.vararg else set()) | ({aa.kwarg.arg} if aa.kwarg else set())
+                if isinstance(n, ast.FunctionDef):
+                    nested_params.add(n.name)
+        own_nodes = []
+        stack = list(ast.iter_child_nodes(fn))
+        while stack:
+            n = stack.pop()
+            if isinstance(n, (ast.FunctionDef, ast.AsyncFunctionDef, ast.ClassDef)):
+                # nested defs: rename free uses of the outer locals inside too (closures), but not their own locals
+                own_nodes.append(n)
+                stack.extend(ast.iter_child_nodes(n))
+                continue
+            own_nodes.append(n)
+            stack.extend(ast.iter_child_nodes(n))
+        stored = {n.id for n in own_nodes if isinstance(n, ast.Name) and isinstance(n.ctx, ast.Store)}
+        # exclude names stored inside nested defs (their locals) and comprehension-free safety: keep it simple
+        nested_stored = {m.id for n in ast.walk(fn) if n is not fn and isinstance(n, (ast.FunctionDef, ast.Lambda)) for m in ast.walk(n)
+                         if isinstance(m, ast.Name) and isinstance(m.ctx, ast.Store)}
+        locs = stored - params - declared - nested_params - nested_stored - {"_"}
+        locs = {x for x in locs if not x.startswith("__")}
+        for n in own_nodes:
+            if isinstance(n, ast.Name) and n.id in locs:
+                n.id = n.id + suffix
+            elif isinstance(n, ast.MatchAs) and n.name in locs:
+                n.name = n.name + suffix
 
 
 def run_check(prop, root):
